@@ -541,7 +541,7 @@ func (e *env) opFetch() {
 			bs.Specifier = imap.PartSpecifierHeader
 			bs.HeaderFieldsNot = []string{"Received"}
 		case 4:
-			bs.Partial = &imap.SectionPartial{Offset: int64(10 * rng.Intn(5)), Size: 1000}
+			bs.Partial = &imap.SectionPartial{Offset: []int64{0, 10, 40, 1 << 31, 1<<32 - 1, 1 << 32, 1<<40 + 5, 1<<63 - 1}[rng.Intn(8)], Size: 1000}
 		case 5:
 			if len(bs.Part) > 0 {
 				bs.Specifier = imap.PartSpecifierMIME
